@@ -6,7 +6,7 @@
     are translated from /repo on every run. *)
 From Coq Require Import ZArith List Bool.
 From Geo Require Import Base.GoPrim Gen.CellIDCov Model.Shapes Model.Index
-  Proofs.C06_Slices Proofs.C06_Prefix Proofs.C06_Shapes Proofs.C06_Polygons Proofs.C06_Index Proofs.C06_IndexOk.
+  Proofs.C06_Slices Proofs.C06_Prefix Proofs.C06_Shapes Proofs.C06_Polygons Proofs.C06_Index Proofs.C06_IndexOk Proofs.C06_CellRel.
 Import ListNotations.
 Local Open Scope Z_scope.
 
@@ -195,3 +195,55 @@ Theorem validated_index_cells_ok : forall numEdges idx,
   index_ok_struct numEdges idx -> cells_ok (cell_ids idx).
 Proof. exact index_ok_struct_cells_ok. Qed.
 Print Assumptions validated_index_cells_ok.
+
+(** * Loop/Polygon.ContainsCell and IntersectsCell through the index (Model/Index.v
+      [contains_cell]/[intersects_cell]: LocateCellID relation, boundaryApproxIntersects,
+      iteratorContainsPoint at the cell centre), one-sided safety against brute force:
+      ContainsCell = true  ==> no edge meets the cell and the centre is inside;
+      IntersectsCell = false ==> no edge meets the cell and the centre is outside.
+      [meets] is the exact "edge meets cell" relation, [approx_meets] the padded clipping test. *)
+Theorem contains_cell_one_sided :
+  forall (point : Type) (crossing_sign : point -> point -> point -> point -> crossing)
+         (vertex_crossing : point -> point -> point -> point -> bool) (cell_center : Z -> point)
+         (leaf_of_point : point -> Z) (approx_meets : point * point -> Z -> bool)
+         (s : qshape point) (ref : point) (ref_inside : bool) (meets : point * point -> Z -> Prop) (idx : index),
+  q_dim s = 2 ->
+  index_ok point crossing_sign vertex_crossing cell_center [s] (fun _ => ref) (fun _ => ref_inside) idx ->
+  H_JORDAN point crossing_sign vertex_crossing [s] (fun _ => ref) ->
+  H_CLIP point crossing_sign vertex_crossing cell_center leaf_of_point [s] idx ->
+  H_CENTER_LEAF cell_center leaf_of_point -> H_CLIP_APPROX approx_meets s meets -> H_COMPLETE_NESTED s meets idx ->
+  forall T, 0 < T ->
+  contains_cell point crossing_sign vertex_crossing cell_center approx_meets s idx T = Some true ->
+  (forall e, In e (q_edges s) -> ~ meets e T) /\
+  brute_contains point crossing_sign vertex_crossing s ref ref_inside (cell_center T) = true.
+Proof. exact Proofs.C06_CellRel.contains_cell_one_sided. Qed.
+Print Assumptions contains_cell_one_sided.
+
+Theorem intersects_cell_one_sided :
+  forall (point : Type) (crossing_sign : point -> point -> point -> point -> crossing)
+         (vertex_crossing : point -> point -> point -> point -> bool) (cell_center : Z -> point)
+         (leaf_of_point : point -> Z) (approx_meets : point * point -> Z -> bool)
+         (s : qshape point) (ref : point) (ref_inside : bool) (meets : point * point -> Z -> Prop) (idx : index),
+  q_dim s = 2 ->
+  index_ok point crossing_sign vertex_crossing cell_center [s] (fun _ => ref) (fun _ => ref_inside) idx ->
+  H_JORDAN point crossing_sign vertex_crossing [s] (fun _ => ref) ->
+  H_CLIP point crossing_sign vertex_crossing cell_center leaf_of_point [s] idx ->
+  H_COVER point crossing_sign vertex_crossing leaf_of_point [s] (fun _ => ref) (fun _ => ref_inside) idx ->
+  H_CENTER_LEAF cell_center leaf_of_point -> H_CLIP_APPROX approx_meets s meets -> H_COMPLETE_NESTED s meets idx ->
+  H_COVER_CELL s meets idx ->
+  forall T, 0 < T ->
+  intersects_cell point crossing_sign vertex_crossing cell_center approx_meets s idx T = Some false ->
+  (forall e, In e (q_edges s) -> ~ meets e T) /\
+  brute_contains point crossing_sign vertex_crossing s ref ref_inside (cell_center T) = false.
+Proof. exact Proofs.C06_CellRel.intersects_cell_one_sided. Qed.
+Print Assumptions intersects_cell_one_sided.
+
+(** neither dereferences a nil entry on a structurally valid single-shape index *)
+Theorem cell_relations_total :
+  forall (point : Type) crossing_sign vertex_crossing cell_center approx_meets
+         (s : qshape point) (n : Z) (idx : index) (T : Z),
+  index_ok_struct [n] idx -> 0 < T ->
+  contains_cell point crossing_sign vertex_crossing cell_center approx_meets s idx T <> None /\
+  intersects_cell point crossing_sign vertex_crossing cell_center approx_meets s idx T <> None.
+Proof. exact Proofs.C06_CellRel.cell_relations_total. Qed.
+Print Assumptions cell_relations_total.
